@@ -344,12 +344,19 @@ func Run(ctx *common.Ctx) {
 	// the enumerated block of class hierarchies first (42 sessions, every run), then the random sessions
 	var cblock [][]classDef
 	cblock = classBlock()
-	for i := 0; i < next+len(cblock); i++ {
+	// then the enumerated block of packages with functions x the package that is current while the snapshot is taken
+	pblock := pkgBlock()
+	for i := 0; i < next+len(cblock)+len(pblock); i++ {
 		var forms, probes []string
 		tag := "session:extended-tame"
+		var pc *pkgCase
 		if i < len(cblock) {
 			forms, probes = classSession(cblock[i], i)
 			tag = "block:class-hierarchy-session"
+		} else if j := i - len(cblock); j < len(pblock) {
+			pc = &pblock[j]
+			forms, probes = pkgSession(pblock[j], j)
+			tag = "block:package-functions-session"
 		} else {
 			forms, probes, _ = genSession(rng, ctx.Hist, false, false)
 		}
@@ -367,6 +374,18 @@ func Run(ctx *common.Ctx) {
 			terms = append(terms, term)
 			descs = append(descs, map[string]any{"forms": forms, "snapshot1_user_forms": o.Snap1})
 		}
+		// the defclass forms of the snapshot (superclasses in the order written) against the model (coq/C19/Reload.v)
+		if term, ok := classFormsCase(forms, o.Snap1); ok && !o.snapFail {
+			ctx.Hist("case:class-forms")
+			terms = append(terms, term)
+			descs = append(descs, map[string]any{"forms": forms, "snapshot1_user_forms": o.Snap1})
+		}
+		// the lines of the functions section against the model (coq/C19/Reload.v fun_section)
+		if pc != nil && !o.snapFail {
+			ctx.Hist("case:function-section")
+			terms = append(terms, pkgTerm(*pc, o.raw1))
+			descs = append(descs, map[string]any{"forms": forms, "function_section": funLines(o.raw1)})
+		}
 		bad := len(o.Problems) > 0
 		for k, dres := range o.Define {
 			if strings.HasPrefix(dres, "!") {
@@ -382,10 +401,10 @@ func Run(ctx *common.Ctx) {
 		fmt.Fprintln(os.Stderr, "sessions done", time.Since(t0))
 	}
 	ctx.Meta.DistinctNontrivial = len(distinct)
-	ctx.Meta.Rule = "(a) values: half generated inside the guard (nested lists, dotted lists, adjustable vectors, arrays of rank 2-3, hash tables, lambdas; atoms: fixnums incl. int64 limits, bignums, ratios, floats, characters, strings with quotes/backslashes/newlines/UTF-8, keywords, type symbols), half unrestricted (also plain and odd symbols, small bignums, non-adjustable and empty vectors, rank-0 and zero-size arrays, character/list keys, list values, lambdas with doc strings); per value: LoadForm, the form evaluated, and for 5 margins in 20..120 (20, 120 and three random) plus the plain printer: pp.Append -> ReadOne -> Eval -> Equal. every fifth value is a top-level lambda whose body is generated code over all 46 head-symbol templates the pretty printer has layouts for (never evaluated). (b) function calls from a pool plus 40 generated code forms x 3 margins (judged on the implementation). (b2) object load forms (class, class with superclass, class instance, flavor, flavor overriding a default, flavor instance, package, generic function, function, macro) pretty printed at 3 margins and evaluated in a fresh process with probes. (c) sessions of 3..12 definition forms (defvar, defparameter, setq, defconstant, defun with 6 lambda-list shapes and generated bodies over 34 special forms (let*, multi-pair setq, when/unless, cond, block, dotimes/dolist/do/do*/dovector, with-..., funcall/apply of lambdas, case, setf, incf, push/pop, unwind-protect, ...), defmacro with let*/setq/cond bodies), half tame, half wild (symbol values, list constants, unbound variables, forward calls, wild doc strings, backquote, function quote, multi-entry hash tables): fresh process -> snapshot -> fresh process -> load form by form -> snapshot -> probes of every variable, constant, function (several argument lists), macro and doc string in both processes. Modelled sessions also define one flavor without components and hold instances of it (init keywords, nested instances, the flavor object, lists, hash tables, lambdas in instance variables; (send v :set-x ...)). Enumerated on every run: the block of default forms (13 default shapes x {&optional,&key} x {defun, defmacro, lambda variable}; 26 lambda values) and the block of instance variable values (13 kinds x {init keyword, send, setq}). (d) 110 tame sessions that also define packages (constants in them, variables holding them), chains of flavors (re-declared defaults), variables holding instances directly or in hash tables, functions making instances, generic functions with specialised methods and generated bodies (judged on the implementation; send, slot-value and make-load-form probes). distinct = distinct printed values / histories"
+	ctx.Meta.Rule = "(a) values: half generated inside the guard (nested lists, dotted lists, adjustable vectors, arrays of rank 2-3, hash tables, lambdas; atoms: fixnums incl. int64 limits, bignums, ratios, floats, characters, strings with quotes/backslashes/newlines/UTF-8, keywords, type symbols), half unrestricted (also plain and odd symbols, small bignums, non-adjustable and empty vectors, rank-0 and zero-size arrays, character/list keys, list values, lambdas with doc strings); per value: LoadForm, the form evaluated, and for 5 margins in 20..120 (20, 120 and three random) plus the plain printer: pp.Append -> ReadOne -> Eval -> Equal. every fifth value is a top-level lambda whose body is generated code over all 46 head-symbol templates the pretty printer has layouts for (never evaluated). (b) function calls from a pool plus 40 generated code forms x 3 margins (judged on the implementation). (b2) object load forms (class, class with superclass, class instance, flavor, flavor overriding a default, flavor instance, package, generic function, function, macro) pretty printed at 3 margins and evaluated in a fresh process with probes. (c) sessions of 3..12 definition forms (defvar, defparameter, setq, defconstant, defun with 6 lambda-list shapes and generated bodies over 34 special forms (let*, multi-pair setq, when/unless, cond, block, dotimes/dolist/do/do*/dovector, with-..., funcall/apply of lambdas, case, setf, incf, push/pop, unwind-protect, ...), defmacro with let*/setq/cond bodies), half tame, half wild (symbol values, list constants, unbound variables, forward calls, wild doc strings, backquote, function quote, multi-entry hash tables): fresh process -> snapshot -> fresh process -> load form by form -> snapshot -> probes of every variable, constant, function (several argument lists), macro and doc string in both processes. Modelled sessions also define one flavor without components and hold instances of it (init keywords, nested instances, the flavor object, lists, hash tables, lambdas in instance variables; (send v :set-x ...)). Enumerated on every run: the block of default forms (13 default shapes x {&optional,&key} x {defun, defmacro, lambda variable}; 26 lambda values) and the block of instance variable values (13 kinds x {init keyword, send, setq}). (d) 110 tame sessions that also define packages (constants in them, variables holding them), chains of flavors (re-declared defaults), variables holding instances directly or in hash tables, functions making instances, generic functions with specialised methods and generated bodies (judged on the implementation; send, slot-value and make-load-form probes); every class also defines the slot c19-shared with its own initform (the value depends on the order of the direct superclasses) and half of the sessions that end inside a user package take the snapshot there. Enumerated on every run: 42 class hierarchies (the defclass forms of the snapshot, superclass order included, against the model) and 21 sessions of {common-lisp-user, two user packages} x which of them hold functions x which is current at the snapshot (the lines of the functions section against the model). distinct = distinct printed values / histories"
 	// spread the (more expensive) session cases evenly over the shards
 	terms, descs = spread(terms, descs, nvalues)
-	header := "From Coq Require Import List String ZArith NArith Bool.\nImport ListNotations.\nFrom C19 Require Import Model Spec Corr.\n"
+	header := "From Coq Require Import List String ZArith NArith Bool.\nImport ListNotations.\nFrom C19 Require Import Model Spec Reload Corr.\n"
 	footer := "Definition res := Eval vm_compute in check_all cases.\nPrint res.\nDefinition gcount := Eval vm_compute in guard_count cases.\nPrint gcount.\nDefinition class_cases := Eval vm_compute in class_case_count cases.\nPrint class_cases.\nDefinition class_ranked := Eval vm_compute in class_ranked_count cases.\nPrint class_ranked.\n"
 	nshards := 16
 	if ctx.Thorough() {
